@@ -37,6 +37,14 @@ def lines_for(rng, tier):
             data = "g:%d:%d" % (seed, n)
             lines.append("%d %s %s%s" % (buf, data, ",".join(map(str, chunks)) or "-", " err" if fail else ""))
             meta.append((seed, n, bool(fail), len(chunks)))
+    # a read that fails ONCE with a temporary error (EAGAIN / EINTR: a non-blocking pipe, a signal) in the middle of the stream, after
+    # which the reader would deliver the rest: the answer is an error or the checksum of ALL the bytes, never of a part
+    for n in (3000, 70000, 200000):
+        for kind in ("eagain", "eintr", "patheagain"):
+            for cut in (1, n // 2, n - 1):
+                seed = rng.randrange(10000)
+                lines.append("%d g:%d:%d %d %s" % (rng.choice([0, 4096]), seed, n, cut, kind))
+                meta.append((seed, n, "temp", 1))
     return lines, meta
 
 
@@ -74,12 +82,21 @@ def main(tier, replay=None):
         lines = json.load(open(replay)).get("lines", lines)
         meta = [(0, 2000, False, 3)] * len(lines)
     impl = run_lines([h, "sum"], lines)
-    model = run_lines([drv, "sum"], lines)
+    plain_ix = [k_ for k_, mt_ in enumerate(meta) if mt_[2] != "temp"]
+    model_plain = run_lines([drv, "sum"], [lines[k_] for k_ in plain_ix])
+    model = [None] * len(lines)
+    for k_, m_ in zip(plain_ix, model_plain):
+        model[k_] = m_
     ref = run_lines([drv, "b3hex"], [gen_content(s, n).hex() or "-" for s, n, f, c in meta]) if not replay else model
     viol, diverged = [], []
     for i, (ln, a, m, r, mt) in enumerate(zip(lines, impl, model, ref, meta)):
         R.count(i, mt[1] > 1024 or mt[3] >= 3)
         want = "ERR" if mt[2] else r
+        if mt[2] == "temp":
+            # a temporary error in mid-stream: an error, or the checksum of everything — not modelled, judged by the oracle alone
+            if a not in ("ERR", r):
+                viol.append(dict(line=ln, implementation=a, blake3_of_all_bytes=r, what="a read failed once with a temporary error: the answer is the checksum of a PART of the stream"))
+            continue
         if a != want:
             viol.append(dict(line=ln, implementation=a, blake3_of_bytes=want, previous_lines=lines[max(0, i - 2):i]))
         elif a != m:
@@ -87,7 +104,7 @@ def main(tier, replay=None):
         else:
             R.cov["traces_validated_against_impl"] += 1
     # 3. concurrent batches
-    blines = [l for l in lines if not l.endswith("err")][:400]
+    blines = [l for l in lines if not l.endswith(("err", "eagain", "eintr", "patheagain"))][:400]
     bref = {l: r for l, r, mt in zip(lines, ref, meta) if not mt[2]}
     for rep in range(2 if tier == "quick" else 10):
         out = run_lines([h, "batch"], blines)
